@@ -426,6 +426,12 @@ fn a_command_notification_accepts_no_resolution() {
     std::mem::forget(ctx);
 }
 
+// NOT BUILT: the legacy capability API's request_from_shell / ShellRequest::poll
+// (capability/shell_request.rs). A harness with crossbeam's send stubbed and the request captured
+// through channel::Sender::map_input compiles, but CBMC does not finish in 15 min: every drop of
+// the `Arc<dyn SenderInner>` is vtable-dispatched over all implementors and drags crossbeam's
+// disconnect-on-drop loops into every path (1500 loop unwindings before the timeout).
+
 // Concrete-playback tests generated by Kani for a failing run are written here by
 // /verif/bin/check (the file is empty otherwise).
 include!("/verif/work/playback/crux_core.rs");
